@@ -107,16 +107,16 @@ Qed.
 Print Assumptions C21_treemap_serialize_roundtrip.
 
 (* Canonical form (no entry holds an empty bitmap) makes is_empty() mean set emptiness; it is preserved by
-   insert, extend/from_iter, remove, insert_range (F15: insert_range(5..5) used to break it), |, &, and by -
-   outside the class Known_C21_full_minus_whole_bitmap (some fragment is Full on the left and holds a
-   bitmap with all 2^32 offsets on the right). *)
+   insert, extend/from_iter, remove, insert_range (F15: insert_range(5..5) used to break it), |, & and -
+   (repaired by 7f76aa9: Full minus a bitmap holding all 2^32 offsets used to leave an empty entry; no
+   carve-out any more). *)
 Theorem C21_canonical_form : forall (a b : treemap) (v : N) (vs : list N) (s e : bound),
   tm_wf a -> tm_wf b -> tm_canon a -> tm_canon b -> bound_ok s -> bound_ok e ->
   (tm_is_empty a = true <-> forall x, x < two64 -> tm_contains a x = false) /\
   tm_canon (fst (tm_insert v a)) /\ tm_canon (tm_extend a vs) /\ tm_canon (fst (tm_remove v a)) /\
   (forall t' c, tm_insert_range s e a = Ok (t', c) -> tm_canon t') /\
   tm_canon (tm_or a b) /\ tm_canon (tm_and a b) /\
-  (Known_C21_full_minus_whole_bitmap a b = false -> tm_canon (tm_sub a b)).
+  tm_canon (tm_sub a b).
 Proof.
   intros a b v vs s e Ha Hb Hca Hcb Hs He.
   split; [apply tm_is_empty_spec; assumption|].
@@ -126,33 +126,17 @@ Proof.
   split; [intros t' c E; apply (tm_insert_range_canon s e a t' c); assumption|].
   split; [apply tm_or_canon; assumption|].
   split; [apply tm_and_canon|].
-  intro K. apply tm_sub_canon; assumption.
+  apply tm_sub_canon; assumption.
 Qed.
 Print Assumptions C21_canonical_form.
 
-(* KNOWN FINDING (class Known_C21_full_minus_whole_bitmap, reproduced on the real code by `hx_c21 probe`):
-   inside the class the canonical form - and with it is_empty() as set emptiness - is NOT preserved by
-   subtraction: {7: Full} - {7: Partial(all 2^32 offsets)} is the empty set, yet is_empty() is false.
-   (Membership is unaffected: C21_treemap_set_algebra has no carve-out.) *)
-Theorem C21_is_empty_full_minus_whole_bitmap_refuted : exists a b : treemap,
-  Known_C21_full_minus_whole_bitmap a b = true /\ tm_wf a /\ tm_wf b /\ tm_canon a /\ tm_canon b /\
-  ~ ((forall x, tm_contains (tm_sub a b) x = false) -> tm_is_empty (tm_sub a b) = true).
-Proof.
-  exists [(7, Full)], [(7, Partial bm_full)].
-  assert (Ha : tm_wf [(7, Full)]).
-  { change [(7, Full)] with (aput 7 Full []). apply tm_wf_aput; [reflexivity | exact I | apply tm_wf_nil]. }
-  assert (Hb : tm_wf [(7, Partial bm_full)]).
-  { change [(7, Partial bm_full)] with (aput 7 (Partial bm_full) []).
-    apply tm_wf_aput; [reflexivity | apply bm_wf_full | apply tm_wf_nil]. }
-  split; [vm_compute; reflexivity|]. split; [exact Ha|]. split; [exact Hb|].
-  split; [repeat constructor|]. split; [repeat constructor|].
-  intro H. assert (E : tm_is_empty (tm_sub [(7, Full)] [(7, Partial bm_full)]) = false) by (vm_compute; reflexivity).
-  rewrite H in E; [discriminate|].
-  intro x. rewrite tm_sub_contains by assumption. rewrite !tm_contains_has. cbn [aget].
-  destruct (hi32 x =? 7); [|reflexivity]. cbn [sel_has]. rewrite bm_mem_full.
-  pose proof (lo32_lt x) as Hlt. replace (lo32 x <? two32) with true by lia. reflexivity.
-Qed.
-Print Assumptions C21_is_empty_full_minus_whole_bitmap_refuted.
+(* regression input of 7f76aa9 (was the known-finding class Known_C21_full_minus_whole_bitmap):
+   {7: Full} - {7: Partial(all 2^32 offsets)} is the empty map, and is_empty() says so *)
+Example C21_full_minus_whole_bitmap_input :
+  tm_sub [(7, Full)] [(7, Partial bm_full)] = [] /\
+  tm_is_empty (tm_sub [(7, Full)] [(7, Partial bm_full)]) = true /\
+  tm_sub [(7, Full); (9, Full)] [(7, Partial bm_full); (9, Partial (Neg [3]))] = [(9, Partial (Pos [3]))].
+Proof. vm_compute. repeat split; reflexivity. Qed.
 
 (* ---------------------------------------------------------------- RowIdMask: pointwise boolean algebra *)
 
